@@ -29,6 +29,12 @@ def applied(cx):
                 cx.ok(key, "checked setter: !(idx > committed) and !(idx < applied)", c)
                 continue
             n_unchecked.append(c)
+            ctor_fns0 = {f.key for f, _, _, _ in ctor_sites(cx, "raft::Raft")}
+            if c.fn.key in ctor_fns0:
+                # second form: the constructor itself takes the unchecked path (no flag-carrying helper in between)
+                cx.check(idx[0] == "field" and idx[2] == "Config.applied", cx.site_key(c, "restart-value"), "the node restarts at exactly the applied index the application configured (found %s)" % show(idx)[:100], c)
+                cx.ok(key, "the unchecked applied index is used only while constructing the node (restart window)", c)
+                continue
             # the unchecked restart path: reachable only from the constructor
             def skip(l):
                 return l[0] == "is" and l[2] is True and l[1][0] == "param" and c.fn.body.local_ty(l[1][1]) == "bool"
